@@ -82,3 +82,12 @@ func init() {
 		return res
 	}, nil)
 }
+
+func init() {
+	register("tool-c01-kinds", func(ctx *Ctx) *Result {
+		res := &Result{}
+		defer c01ScratchCleanup()
+		c01RunKinds(ctx, res)
+		return res
+	}, nil)
+}
